@@ -7,6 +7,7 @@ CONSTANTS
   NoReset = FALSE
   SwallowApp = FALSE
   ResetOnRecover = FALSE
+  StaleGuard = FALSE
 SPECIFICATION MCSpec
 INVARIANT Refines
 CONSTRAINT Bound
